@@ -13,3 +13,22 @@ func VerifC11LsbForLevel(level int) uint64          { return lsbForLevel(level) 
 func VerifC11LowerBound(cu CellUnion, begin, end int, id CellID) int {
 	return cu.lowerBound(begin, end, id)
 }
+
+// VerifC11CellIndexDump returns the cell tree (cellID, label, parent) and the range nodes
+// (startID, contents) of a built CellIndex.
+func VerifC11CellIndexDump(c *CellIndex) (cells []uint64, labels, parents []int32, starts []uint64, contents []int32) {
+	for _, n := range c.cellTree {
+		cells = append(cells, uint64(n.cellID))
+		labels = append(labels, n.label)
+		parents = append(parents, n.parent)
+	}
+	for _, r := range c.rangeNodes {
+		starts = append(starts, uint64(r.startID))
+		contents = append(contents, r.contents)
+	}
+	return
+}
+
+// VerifC11RangeIterPos / SetPos read and set the position of a range iterator.
+func VerifC11RangeIterPos(it *CellIndexRangeIterator) int         { return it.pos }
+func VerifC11RangeIterSetPos(it *CellIndexRangeIterator, pos int) { it.pos = pos }
